@@ -70,6 +70,16 @@ func c17Formats() []c17Fmt {
 			Seps: map[string]string{"none": "", "whitespace": " \n\t", "newlines": "\n\n"}},
 		{Name: "json-toplevel-scalars", Schema: `{` + h("json") + `,"transform_declarations":{"FINAL_OUTPUT":{"xpath":"/*[.!='skip']","object":{"v":{"xpath":".","type":"int"}}}}}`,
 			Prefix: `[`, Suffix: `"skip"]`, Rec: map[byte]string{'P': `1,`, 'F': `"skip",`, 'T': `"zz",`}, Seps: map[string]string{"none": "", "whitespace": " \n"}},
+		// records that are members of one JSON object (scalars, and objects), with a filter
+		{Name: "json-keyed-scalars", Schema: `{` + h("json") + `,"transform_declarations":{"FINAL_OUTPUT":{"xpath":"/status/*[.!='skip']","object":{"v":{"xpath":".","type":"int"},"n":{"xpath":"../../name"}}}}}`,
+			Prefix: `{"name":"N","status":{`, Suffix: `"end":"skip"}}`, Rec: map[byte]string{'P': `"k":1,`, 'F': `"k":"skip",`, 'T': `"k":"zz",`}, Seps: map[string]string{"none": "", "whitespace": " \n"}},
+		{Name: "json-keyed-objects", Schema: `{` + h("json") + `,"transform_declarations":{"FINAL_OUTPUT":{"xpath":"/r/items/*[a!='skip']","object":{"a":{"xpath":"a"},"b":{"xpath":"b","type":"int"},"n":{"xpath":"../../name"}}}}}`,
+			Prefix: `{"name":"N","r":{"items":{`, Suffix: `"end":{"a":"skip"}}}}`, Rec: map[byte]string{'P': `"k":{"a":"x","b":[1,{"c":2}]},`, 'F': `"k":{"a":"skip","b":1},`, 'T': `"k":{"a":"x","b":"zz"},`},
+			Seps: map[string]string{"none": "", "newlines": "\n\n"}},
+		// a target xpath that mentions position() / last() next to the filter
+		{Name: "xml-positional-filter", Schema: `{` + h("xml") + `,"transform_declarations":{"FINAL_OUTPUT":{"xpath":"/r/g/a[position() <= 1000000 and @k!='skip']","object":{"k":{"xpath":"@k"},"b":{"xpath":"b","type":"int"},"h":{"xpath":"../../h"}}}}}`,
+			Prefix: `<r><h>H</h><g>`, Suffix: `</g></r>`, Rec: map[byte]string{'P': `<a k="x"><b>1</b><c/></a>`, 'F': `<a k="skip"><b>1</b></a>`, 'T': `<a k="x"><b>zz</b></a>`},
+			Seps: map[string]string{"none": "", "comment": "<!-- c -->"}},
 		{Name: "xml-basic", Schema: `{` + h("xml") + `,"transform_declarations":{"FINAL_OUTPUT":{"xpath":"/r/g/a[@k!='skip']","object":{"k":{"xpath":"@k"},"b":{"xpath":"b","type":"int"},"h":{"xpath":"../../h"}}}}}`,
 			Prefix: `<r><h>H</h><g>`, Suffix: `</g></r>`, Rec: map[byte]string{'P': `<a k="x"><b>1</b><c/></a>`, 'F': `<a k="skip"><b>1</b></a>`, 'T': `<a k="x"><b>zz</b></a>`},
 			Seps: map[string]string{"none": "", "chardata": "\n  ", "comment": "<!-- c -->"}},
